@@ -126,3 +126,10 @@ TEXT["C15"] = {
     "note": "trusts the harness transaction model (harness/src/txgen.rs), its SHA-256 and the documented jet encodings",
     "technique": "reference-model monitor (field extractor) over generated transaction environments, plus memory sanitizers on the marshalling path",
 }
+TEXT["C16"] = {
+    "level": ("All two-level policies over a 9-leaf alphabet under every availability pattern, plus thousands of generated deeper policies under four patterns each, decided against a truth-table model, "
+              "the Bit Machine and the C evaluator; sorting compared with a model canonical form and across random child reorderings."),
+    "design_ref": "DESIGN.md section 5, C16",
+    "note": "trusts the harness policy model (harness/src/c16.rs: truth, canon) and the transaction model for lock height / distance",
+    "technique": "reference-model monitor (policy truth table, canonical form) over generated policies, environments and availability patterns; differential against the C evaluator",
+}
